@@ -9,6 +9,7 @@
 -/
 import Honeycomb.Gen.AttrMoves
 import Honeycomb.Model.Ops
+import Honeycomb.Lemmas.Attr
 
 namespace HC.GenTie
 open HC
@@ -129,6 +130,27 @@ theorem C04_gen_splitS (cfg : Cfg X) (s lout rout inp : Nat) :
   unfold interpSplit splitS
   simp only [C04_gen_split_dispatch]
   rfl
+
+/-- **the translated `merge`, run**: without a pending fault, on two different input cells, the translated
+    code either stores the merged value under `out` and clears both inputs, or returns the law's error and
+    leaves the map alone (the statement `mergeS_run` all placement theorems start from, now about the
+    translated code) -/
+theorem C04_gen_merge_run (cfg : Cfg X) (s out l r : Nat) (m : Map X) (hfc : m.fc = 0) (hlr : l ≠ r)
+    (hl : m.okA s l = true) (hr : m.okA s r = true) (ho : m.okA s out = true) :
+    run (interpMerge cfg s out l r) m =
+      match mergeVal (cfg.law s) (m.att s l) (m.att s r) with
+      | .ok v => (.ok (), m.mergeAt s out l r v)
+      | .error e => (.err e, m) := by
+  rw [C04_gen_mergeS]; exact mergeS_run cfg s out l r m hfc hlr hl hr ho
+
+/-- **the translated `split`, run** -/
+theorem C04_gen_split_run (cfg : Cfg X) (s lo ro inp : Nat) (m : Map X) (hfc : m.fc = 0) (hlr : lo ≠ ro)
+    (hi : m.okA s inp = true) (hl : m.okA s lo = true) (hr : m.okA s ro = true) :
+    run (interpSplit cfg s lo ro inp) m =
+      match splitVal (cfg.law s) (m.att s inp) with
+      | .ok (a, b) => (.ok (), m.splitAt s lo ro inp a b)
+      | .error e => (.err e, m) := by
+  rw [C04_gen_splitS]; exact splitS_run cfg s lo ro inp m hfc hlr hi hl hr
 
 /-- the interpreters reject what they do not understand -/
 example (s : Nat) : interpWrites (X := X) s 0 0 0 (a := x) (b := x) [(9, [])] = Prog.panic := rfl
